@@ -15,6 +15,7 @@ import (
 	"fmt"
 	"io"
 	"os"
+	"runtime"
 	"strings"
 	"sync"
 	"sync/atomic"
@@ -192,6 +193,43 @@ func Child(seed int64, tier, stateFile string, rounds int, saveMs int, compress 
 		run.Distinct("hook_count_signatures", sig)
 	}
 	defer finish()
+
+	// stall inspection: when no hook point has been hit for 30 s the goroutine stacks are looked at. A goroutine that
+	// waits in UnspentDB.abortWriting (sending the abort request, or waiting for the writer to finish) while no
+	// UnspentDB.save goroutine exists can never be woken: nobody else receives that request or ends that wait. That
+	// pattern - not the time that has passed - is the verdict; anything else is left to the parent's watchdog.
+	go func() {
+		last, stalled := int64(-1), 0
+		for {
+			time.Sleep(5 * time.Second)
+			cur := hookHits.Load()
+			if cur != last {
+				last, stalled = cur, 0
+				continue
+			}
+			if stalled++; stalled != 6 {
+				continue
+			}
+			buf := make([]byte, 8<<20)
+			dump := string(buf[:runtime.Stack(buf, true)])
+			var waiter string
+			saver := false
+			for _, gr := range strings.Split(dump, "\n\n") {
+				if strings.Contains(gr, "utxo.(*UnspentDB).save(") {
+					saver = true
+				}
+				if strings.Contains(gr, "utxo.(*UnspentDB).abortWriting(") && (strings.Contains(gr, "[chan send") || strings.Contains(gr, "[semacquire") || strings.Contains(gr, "[sync.WaitGroup.Wait")) {
+					waiter = gr
+				}
+			}
+			if waiter != "" && !saver {
+				run.Violation("deadlock/abortWriting-without-a-running-save", "a goroutine waits in UnspentDB.abortWriting for a snapshot writer that does not exist (the database mutex is held: every later commit, undo, Idle and Close blocks)",
+					map[string]interface{}{"waiting_goroutine": vlib.Tail([]byte(waiter), 1800), "journal_tail": tailN(s.Log, 12)})
+				run.ExportState(stateFile)
+				os.Exit(0)
+			}
+		}
+	}()
 
 	// every few deliveries a snapshot save is started immediately before the node gets the block, so
 	// that the commit runs into a save that has only just been launched
